@@ -176,6 +176,14 @@ CustomBuildViolations(ev, twoD, otherKinds, xb, yb) ==
                 THEN <<V({"C18"}, "C18|build|strategy-error-not-propagated", <<ev.out, ev.msg>>)>> ELSE <<>>
     IN  vCall \o vArgs \o vErr
 
+\* at most two reported conflicts per memo family and event (keeps every family visible)
+MemoViolations(confl, en) ==
+    LET fams == <<"obj", "out", "lin", "bil", "spl">>
+        perFam(f) == LET cs == SeqOfSet({k \in confl : k[1] = f})
+                         n == IF Len(cs) > 2 THEN 2 ELSE Len(cs)
+                     IN  [i \in 1..n |-> V(FamilyProps(f), "MEMO|" \o f \o "|" \o en, <<cs[i][2]>>)]
+    IN  perFam(fams[1]) \o perFam(fams[2]) \o perFam(fams[3]) \o perFam(fams[4]) \o perFam(fams[5])
+
 ----------------------------------------------------------------------------
 \* Build events
 
@@ -396,8 +404,7 @@ DoQ1(ev) ==
         outPairs == {<<"out", <<ev.id, ev.q.v, bufOk>>, ev.out>>}
         pairs == objPairs \cup famPairs \cup outPairs
         confl == MemoConflicts(pairs)
-        vMemo == LET cs == SeqOfSet(confl)
-                 IN [i \in 1..Len(cs) |-> V(FamilyProps(cs[i][1]), "MEMO|" \o cs[i][1] \o "|" \o ev.en, <<cs[i][2]>>)]
+        vMemo == MemoViolations(confl, ev.en)
         \* ---- buffer discipline (C14): cells outside the window untouched
         vBuf == IF isInto /\ ev.out = "Ok" /\ bufOk /\ ~OutsideUntouched(ev.buf)
                 THEN <<V({"C14"}, "C14|" \o ev.en \o "|outside-written", <<>>)>> ELSE <<>>
@@ -412,7 +419,7 @@ DoQ1(ev) ==
                    \o (IF judgeEl THEN [k \in 1..N |-> "EL|" \o sk \o "|" \o o.el \o "|" \o J[k].class] ELSE <<>>)
         vRel == IF judge /\ vShape = <<>> /\ ev.en = "array" THEN RelViolations(ev, o, res, FALSE) ELSE <<>>
         keepLast == judge /\ vShape = <<>> /\ ev.en = "array"
-    IN  /\ bad' = bad \o Cap(vOut \o vShape \o vEl \o vMemo \o vBuf \o vCust \o vCast \o vRel)
+    IN  /\ bad' = bad \o vOut \o vShape \o Cap(vEl) \o vMemo \o vBuf \o Cap(vCust) \o Cap(vCast) \o Cap(vRel)
         /\ memoP' = memoP \cup pairs
         /\ memoK' = memoK \cup {<<p[1], p[2]>> : p \in pairs}
         /\ cov' = Bump(cov, classes \o (IF vRel # <<>> \/ (keepLast /\ Has(o, "rel")) THEN <<"RELQ|" \o sk>> ELSE <<>>))
@@ -556,8 +563,7 @@ DoQ2(ev) ==
         outPairs == {<<"out", <<ev.id, ev.q.v, ev.q2.v, ev.q.s = ev.q2.s, bufOk>>, ev.out>>}
         pairs == objPairs \cup famPairs \cup outPairs
         confl == MemoConflicts(pairs)
-        vMemo == LET cs == SeqOfSet(confl)
-                 IN [i \in 1..Len(cs) |-> V(FamilyProps(cs[i][1]), "MEMO|" \o cs[i][1] \o "|" \o ev.en, <<cs[i][2]>>)]
+        vMemo == MemoViolations(confl, ev.en)
         vBuf == IF isInto /\ ev.out = "Ok" /\ bufOk /\ ~OutsideUntouched(ev.buf)
                 THEN <<V({"C14"}, "C14|" \o ev.en \o "|outside-written", <<>>)>> ELSE <<>>
         hk == sk \o "|" \o o.el
@@ -571,7 +577,7 @@ DoQ2(ev) ==
                    \o (IF judgeEl THEN [k \in 1..N |-> "EL|" \o sk \o "|" \o o.el \o "|" \o J[k].class] ELSE <<>>)
         vRel == IF judge /\ vShape = <<>> /\ ev.en = "array" THEN RelViolations(ev, o, res, TRUE) ELSE <<>>
         keepLast == judge /\ vShape = <<>> /\ ev.en = "array"
-    IN  /\ bad' = bad \o Cap(vOut \o vShape \o vEl \o vMemo \o vBuf \o vCust \o vCast \o vRel)
+    IN  /\ bad' = bad \o vOut \o vShape \o Cap(vEl) \o vMemo \o vBuf \o Cap(vCust) \o Cap(vCast) \o Cap(vRel)
         /\ memoP' = memoP \cup pairs
         /\ memoK' = memoK \cup {<<p[1], p[2]>> : p \in pairs}
         /\ cov' = Bump(cov, classes \o (IF vRel # <<>> \/ (keepLast /\ Has(o, "rel")) THEN <<"RELQ|" \o sk>> ELSE <<>>))
